@@ -156,3 +156,16 @@ CASES += [
         (_HAM, "        return self.data - numpy.diag(self.get_RWA_skeleton())",
          "        if getattr(self, \"_rwa_data\", None) is None:\n            self._rwa_data = self.data - numpy.diag(self.get_RWA_skeleton())\n        return self._rwa_data", 1)]},
 ]
+
+_DME8 = "quantarhei/qm/propagators/dmevolution.py"
+CASES += [
+    {"name": "frame flag recorded first and reset by the initial condition (seeded change of round 8)", "kind": "mutant", "rule": "C08-N", "edits": [
+        (_DME8, "    def __init__(self, timeaxis=None, rhoi=None, is_in_rwa=False, name=None):\n        \n",
+                "    def __init__(self, timeaxis=None, rhoi=None, is_in_rwa=False, name=None):\n        \n        self.is_in_rwa = is_in_rwa\n", 1),
+        (_DME8, "            \n        self.is_in_rwa = is_in_rwa\n", "\n", 1),
+        (_DME8, "        self.data[0,:,:] = rhoi.data        \n", "        self.data[0,:,:] = rhoi.data        \n        self.is_in_rwa = False\n", 1)]},
+    {"name": "frame flag recorded first, the initial condition leaves it alone", "kind": "twin", "edits": [
+        (_DME8, "    def __init__(self, timeaxis=None, rhoi=None, is_in_rwa=False, name=None):\n        \n",
+                "    def __init__(self, timeaxis=None, rhoi=None, is_in_rwa=False, name=None):\n        \n        self.is_in_rwa = is_in_rwa\n", 1),
+        (_DME8, "            \n        self.is_in_rwa = is_in_rwa\n", "\n", 1)]},
+]
